@@ -127,11 +127,9 @@ func verifyEnforcedCanonicalJSON(input []byte) error {
 			valid = false
 			return false
 		}
-		if value.Num != 0 && strings.ContainsRune(value.Raw, '.') {
-			valid = false
-			return false
-		}
-		if value.Num != 0 && strings.ContainsRune(value.Raw, 'e') {
+		// Only integer literals are allowed: a fraction or an exponent (in
+		// either case) is refused whatever the value, zero included.
+		if value.Type == gjson.Number && strings.ContainsAny(value.Raw, ".eE") {
 			valid = false
 			return false
 		}
